@@ -42,7 +42,7 @@ def spec(tier, seed):
         Harness("c24_determinism", obligation="two calls with equal arguments return equal results", encodes=enc, bounds="whole input space; unwind 14", timeout_s=900, tiers=("thorough",)),
         Harness("c24_vacuity_witness", expect_fail=True, obligation="twin: a 12-element result is reachable", timeout_s=600),
     ]
-    return PropSpec("C24", [Unit("c24", generate, hs, jobs=12)],
+    return PropSpec("C24", [Unit("c24", generate, hs, jobs=4, workers=3)],
                     assumptions=["dev-profile semantics (overflow checks on) — what Kani models; release wrapping behaviour is only observed by native replay"],
                     outside_claim=["callers of distribute_partition (cluster routing)"],
                     trusted_base=["kani-compiler 0.68 / CBMC 6.11 / cadical", "the slicer"])
